@@ -203,6 +203,26 @@ class Fn:
             k = t["k"]
             if k == "switch":
                 s = [c[1] for c in t["cases"]] + [t["else"]]
+                # constant condition (`if cfg!(debug_assertions)` with assertions off): keep the taken edge only
+                cv = None
+                d = t["d"]
+                if "c" in d:
+                    cv = d["c"]
+                else:
+                    pl = d.get("mv") or d.get("cp")
+                    if pl is not None and "p" not in pl:
+                        for st in reversed(b["st"]):
+                            if st["lhs"] == {"l": pl["l"]}:
+                                if st["rv"]["k"] == "use" and "c" in st["rv"]["a"] and st["rv"]["a"]["c"] in ("true", "false"):
+                                    cv = st["rv"]["a"]["c"]
+                                break
+                if cv in ("true", "false"):
+                    want = "1" if cv == "true" else "0"
+                    tgt = None
+                    for c in t["cases"]:
+                        if c[0] == want:
+                            tgt = c[1]
+                    s = [tgt if tgt is not None else t["else"]]
             elif k in ("goto", "drop", "assert", "yield", "falseedge", "falseunwind"):
                 s = [t["to"]]
             elif k == "call":
